@@ -1,6 +1,6 @@
 (* Dispatch of driver requests to the per-property executable models. *)
 From Coq Require Import List String.
-From PC Require Import Base.Sexp Run.RC11 Run.RC07 Run.RComp Run.RC08 Run.RDesign Run.RC13.
+From PC Require Import Base.Sexp Run.RC11 Run.RC07 Run.RComp Run.RC08 Run.RDesign Run.RC13 Run.RSys.
 Import ListNotations.
 Local Open Scope string_scope.
 
@@ -15,6 +15,7 @@ Definition run (req : sexp) : sexp :=
   | Li [At "contract"; x] => run_contract x
   | Li [At "files"; x] => run_files x
   | Li [At "C13"; x] => run_C13 x
+  | Li [At "sys"; x] => run_sys x
   | Li [At "C08"; x] => run_C08 x
   | _ => bad_request
   end.
